@@ -117,6 +117,18 @@ def io_error_kind_stub(prog):
     return h
 
 
+def io_error_from_kind(prog):
+    """io::Error::from(ErrorKind) / io::Error::new(kind, ..) for the model's IoError values"""
+    vs = prog.types.variants('ErrorKind')
+
+    def h(ex, st, fn, argv):
+        k = argv[0]
+        if not vs or not isinstance(k, Enum) or not isinstance(k.disc, int):
+            raise Unsupported('io::Error built from a symbolic or unknown ErrorKind')
+        return [(st, Agg({0: Str(str_lit('"' + vs[k.disc] + '"'))}, 'IoError'))]
+    return h
+
+
 def earlier_kept(w):
     """whatever was queued for writing before the step is still queued, in place (nothing dropped from the front, nothing cleared)"""
     early = [it for it in w.outbuf.items if it.get('kind') == 'earlier']
@@ -243,7 +255,7 @@ def reply_capacity(ctx, prog):
 
 
 def io_executor(ctx, prog, unwind=6, extra=()):
-    ex = ctx.executor(prog, list(extra) + io_summaries() + common_summaries(), unwind=unwind)
+    ex = ctx.executor(prog, list(extra) + [(r'^<(std::io::)?(error::)?Error as From<(std::io::)?ErrorKind>>::from$', io_error_from_kind(prog))] + io_summaries() + common_summaries(), unwind=unwind)
     install_type_hooks(ex)
     reply_capacity(ctx, prog)
     return ex
